@@ -1,7 +1,8 @@
 use std::{
     fs,
     io::{self, IsTerminal, Read, Write},
-    process::exit,
+    path::{Path, PathBuf},
+    process::{self, exit},
 };
 
 use clap::Parser;
@@ -187,6 +188,47 @@ fn format_hunk_range(start: Option<usize>, end: Option<usize>) -> String {
     }
 }
 
+/// Name of the temporary sibling that `write_atomically` fills before renaming it over `path`:
+/// `<file name>.luafmt-tmp-<pid>` in the same directory, hence on the same file system.
+fn temp_sibling(path: &Path) -> io::Result<PathBuf> {
+    match path.file_name() {
+        Some(file_name) => {
+            let mut name = file_name.to_os_string();
+            name.push(format!(".luafmt-tmp-{}", process::id()));
+            Ok(path.with_file_name(name))
+        }
+        None => Err(io::Error::new(
+            io::ErrorKind::InvalidInput,
+            "path has no file name",
+        )),
+    }
+}
+
+/// Replaces the content of `path` with `data` such that `path` holds either its complete old
+/// content or the complete new content at every moment, also when the process is killed or a write
+/// fails half way (full disk, file-size limit): the data goes to a temporary file next to `path`,
+/// which is renamed over `path` only once it is completely written. `fs::write` truncates first.
+fn write_atomically(path: &Path, data: &[u8]) -> io::Result<()> {
+    // resolve symlinks: the file a link points to is replaced, not the link
+    let target = fs::canonicalize(path)?;
+    let tmp = temp_sibling(&target)?;
+    let file = fs::File::create_new(&tmp)?;
+    let result = write_then_rename(file, &tmp, &target, data);
+    if result.is_err() {
+        let _ = fs::remove_file(&tmp);
+    }
+    result
+}
+
+fn write_then_rename(mut file: fs::File, tmp: &Path, target: &Path, data: &[u8]) -> io::Result<()> {
+    file.write_all(data)?;
+    file.sync_all()?;
+    drop(file);
+    let permissions = fs::metadata(target)?.permissions();
+    fs::set_permissions(tmp, permissions)?;
+    fs::rename(tmp, target)
+}
+
 fn main() {
     let args = cmd_args::CliArgs::parse();
     let diff_render_options = DiffRenderOptions {
@@ -332,7 +374,7 @@ fn main() {
                         }
                     }
                 } else if args.write {
-                    if changed && let Err(e) = fs::write(path, formatted) {
+                    if changed && let Err(e) = write_atomically(path, formatted.as_bytes()) {
                         eprintln!("Failed to write {}: {e}", path.to_string_lossy());
                         exit_code = 2;
                     }
@@ -418,5 +460,39 @@ mod tests {
         assert!(rendered.contains("+++ b/src/test.lua"));
         assert!(!rendered.contains("[-"));
         assert!(!rendered.contains("{+"));
+    }
+
+    #[test]
+    fn test_write_atomically_replaces_content_and_leaves_no_temp_file() {
+        let dir = std::env::temp_dir().join(format!("luafmt-atomic-{}", process::id()));
+        fs::create_dir_all(&dir).unwrap();
+        let path = dir.join("a.lua");
+        fs::write(&path, "local x=1\n").unwrap();
+
+        write_atomically(&path, b"local x = 1\n").unwrap();
+
+        assert_eq!(fs::read_to_string(&path).unwrap(), "local x = 1\n");
+        let names: Vec<_> = fs::read_dir(&dir)
+            .unwrap()
+            .map(|entry| entry.unwrap().file_name())
+            .collect();
+        assert_eq!(names, vec![std::ffi::OsString::from("a.lua")]);
+        fs::remove_dir_all(&dir).unwrap();
+    }
+
+    #[test]
+    fn test_write_atomically_keeps_the_original_when_the_temp_file_cannot_be_created() {
+        let dir = std::env::temp_dir().join(format!("luafmt-atomic-busy-{}", process::id()));
+        fs::create_dir_all(&dir).unwrap();
+        let path = dir.join("a.lua");
+        fs::write(&path, "local x=1\n").unwrap();
+        let tmp = temp_sibling(&fs::canonicalize(&path).unwrap()).unwrap();
+        fs::write(&tmp, "someone else's file").unwrap();
+
+        assert!(write_atomically(&path, b"local x = 1\n").is_err());
+
+        assert_eq!(fs::read_to_string(&path).unwrap(), "local x=1\n");
+        assert_eq!(fs::read_to_string(&tmp).unwrap(), "someone else's file");
+        fs::remove_dir_all(&dir).unwrap();
     }
 }
